@@ -328,7 +328,9 @@ class Engine:
         self.obligations.append(ob)
         if self.on_obligation:
             self.on_obligation(ob)
-        if self.assume_proved:
+        if self.assume_proved and not z3.is_false(goal):
+            # a goal that is literally false is a failed obligation already; assuming it would make the rest of the path
+            # vacuous and hide the obligations of OTHER properties that fail on the same path
             self.st.pc.append(goal)
         return ob
 
@@ -383,6 +385,10 @@ class Engine:
             h = self.ghost_truth(v)
             if h is not None:
                 return h
+            if v.tag in ("obj", "frame", "msg"):
+                # an arbitrary Python object may be falsy (0, "", b"", an empty container): its truth value is an
+                # uninterpreted predicate of the object
+                return _TRUTHY(v.t)
         raise Unsupported("truthiness of %r" % (v,))
 
     def ghost_truth(self, v):
@@ -394,6 +400,7 @@ class Engine:
     # -------------------------------------------------------------- functions
     def run_function(self, fi, args, kwargs=None, self_val=None, extra_env=None):
         """Interpret the body of fi with the given actual arguments."""
+        self.check_decorators(fi)
         kwargs = dict(kwargs or {})
         env = self.bind_args(fi.node.args, args, kwargs, self_val, fi)
         if extra_env:
@@ -1340,6 +1347,10 @@ class Engine:
             return a == b
         if kind_of(a) != kind_of(b):
             return False
+        if is_int(a) and is_int(b) and not isinstance(a, bool) and not isinstance(b, bool):
+            # identity of int objects: different values are never the same object; equal values may or may not be
+            # (CPython shares only small ints) -- an arbitrary Boolean below equality
+            return z3.And(I(a) == I(b), z3.Bool(fresh_name("same_int_object")))
         raise Unsupported("`is` on %r, %r" % (a, b))
 
     def equals(self, a, b):
@@ -1674,7 +1685,17 @@ class Engine:
             raise PyRaise("TypeError", ("'NoneType' object is not callable",), node)
         raise Unsupported("call of %r" % (f,))
 
+    _KNOWN_DECORATORS = ("property", "classmethod", "staticmethod", "abstractmethod", "abc.abstractmethod")
+
+    def check_decorators(self, fi):
+        for d in getattr(fi, "decorators", ()):
+            if d in self._KNOWN_DECORATORS or d.endswith(".setter") or d.endswith(".getter"):
+                continue
+            raise Unsupported("function %s is wrapped by decorator @%s, whose effect (caching, wrapping, ...) is not modelled"
+                              % (fi.qualname, d))
+
     def call_func(self, fi, args, kwargs, self_val):
+        self.check_decorators(fi)
         q = fi.qualname
         if q in self.contracts:
             self.used_contracts.add(q)
@@ -2299,6 +2320,7 @@ class Havoc:
 
 
 _RND = z3.Function("fl.rnd", z3.RealSort(), z3.RealSort())
+_TRUTHY = z3.Function("py.truthy", ValS, z3.BoolSort())
 
 
 def _as_double(v):
